@@ -8,6 +8,7 @@
     /verif/proposed/fix-*-chase-bounds.diff), and the repair cannot change any result. *)
 Require Import Bool List Arith.
 From PV Require Import Sparse SparseProofs GFPart SuscPart GFPartProofs SuscPartProofs EDSpec.
+Require PVgen.Gen_C01.
 Import ListNotations.
 
 (** ** the loops as written leave the arrays: a well-formed pair of matrices on which the chase reads innerIndexPtr[nnz] *)
@@ -104,3 +105,31 @@ Theorem gf_strict_done_is_fixed :
   walk_outer false false a b o = WDone l -> walk_outer true lenient' a b o = WDone l.
 Proof. exact @SparseProofs.walk_outer_strict_done_fixed. Qed.
 Print Assumptions gf_strict_done_is_fixed.
+
+(** ** the source as it is now: PVgen.Gen_C01.gf_chase_guarded / susc_chase_guarded / chaseIndices_guarded say whether the loops
+    of the C++ test the iterator before reading index() (read off the source by the translator on every run).  When they do,
+    the in-bounds theorems apply to the source. *)
+Theorem source_gf_walk_in_bounds_if_guarded :
+  PVgen.Gen_C01.gf_chase_guarded = true ->
+  forall (VA VB : Type) (a : cs VA) (b : cs VB), cs_wf a -> cs_wf b -> cs_outer a <= cs_outer b ->
+  forall lenient : bool, part_walk PVgen.Gen_C01.gf_chase_guarded lenient a b = WDone (matches_part a b).
+Proof. exact (fun H VA VB a b Wa Wb Ho lenient => eq_ind_r (fun f => part_walk f lenient a b = WDone (matches_part a b))
+                (SparseProofs.part_walk_in_bounds a b Wa Wb Ho lenient) H). Qed.
+Print Assumptions source_gf_walk_in_bounds_if_guarded.
+
+Theorem source_susc_walk_in_bounds_if_guarded :
+  PVgen.Gen_C01.susc_chase_guarded = true ->
+  forall (VA VB : Type) (a : cs VA) (b : cs VB), cs_wf a -> cs_wf b -> cs_outer a <= cs_outer b ->
+  forall lenient : bool, part_walk PVgen.Gen_C01.susc_chase_guarded lenient a b = WDone (matches_part a b).
+Proof. exact (fun H VA VB a b Wa Wb Ho lenient => eq_ind_r (fun f => part_walk f lenient a b = WDone (matches_part a b))
+                (SparseProofs.part_walk_in_bounds a b Wa Wb Ho lenient) H). Qed.
+Print Assumptions source_susc_walk_in_bounds_if_guarded.
+
+Theorem source_chaseIndices_in_bounds_if_guarded :
+  PVgen.Gen_C01.chaseIndices_guarded = true ->
+  forall (VA VB : Type) (a : cs VA) (b : cs VB), cs_wf a -> cs_wf b ->
+  forall (lenient : bool) (oa ob : nat), oa < cs_outer a -> ob < cs_outer b ->
+  walk2_outer PVgen.Gen_C01.chaseIndices_guarded lenient a oa b ob = WDone (matches_outer2 a b oa ob).
+Proof. exact (fun H VA VB a b Wa Wb lenient oa ob Ha Hb => eq_ind_r (fun f => walk2_outer f lenient a oa b ob = WDone (matches_outer2 a b oa ob))
+                (SparseProofs.walk2_in_bounds a b Wa Wb lenient oa ob Ha Hb) H). Qed.
+Print Assumptions source_chaseIndices_in_bounds_if_guarded.
